@@ -285,6 +285,16 @@ def base_text(wd):
             % (wd, wd, wd))
 
 
+class Files(str):
+    """text of the main configuration file plus the include files it pulls in: {relative path: text}"""
+    extra = None
+
+    def __new__(cls, main, extra):
+        o = str.__new__(cls, main)
+        o.extra = dict(extra)
+        return o
+
+
 class RealWorld(object):
     """A real ServerOptions + Supervisor + RPC interface over a file in `wd`."""
 
@@ -295,6 +305,16 @@ class RealWorld(object):
         self.xml_hostile = 0
 
     def write(self, text):
+        # include files of this version of the configuration (conf.d/ is rewritten every time)
+        inc = os.path.join(self.wd, 'conf.d')
+        if os.path.isdir(inc):
+            for f in os.listdir(inc):
+                os.unlink(os.path.join(inc, f))
+        for rel, t in sorted((getattr(text, 'extra', None) or {}).items()):
+            if not os.path.isdir(inc):
+                os.makedirs(inc)
+            with open(os.path.join(self.wd, rel), 'wb') as f:
+                f.write(t if isinstance(t, bytes) else t.encode('utf-8'))
         if text is None:
             if os.path.exists(self.path):
                 os.unlink(self.path)
